@@ -101,7 +101,7 @@ def run_case(case):
             import traceback
             tb = traceback.extract_tb(exc.__traceback__)
             where = next((f"{os.path.basename(f.filename)}:{f.name}" for f in reversed(tb)
-                          if "/repo/spatialpandas/" in f.filename), "?")
+                          if seams.SP_DIR in f.filename), "?")
             sig["where"] = where
             sig["exc"] = type(exc).__name__
             return result(False, f"exception@{where}", f"fault-free run raised {type(exc).__name__}: "
